@@ -18,8 +18,8 @@ int compare_icase(const char* a, const char* b)
 {
     while (*a != 0 && *b != 0)
     {
-        int ca = to_lower(*a++);
-        int cb = to_lower(*b++);
+        int ca = static_cast<unsigned char>(to_lower(*a++));
+        int cb = static_cast<unsigned char>(to_lower(*b++));
 
         if (ca == cb)
             continue;
@@ -41,8 +41,8 @@ int compare_icase(const char* a, tlx::string_view b)
 
     while (*a != 0 && bi != b.end())
     {
-        int ca = to_lower(*a++);
-        int cb = to_lower(*bi++);
+        int ca = static_cast<unsigned char>(to_lower(*a++));
+        int cb = static_cast<unsigned char>(to_lower(*bi++));
 
         if (ca == cb)
             continue;
@@ -64,8 +64,8 @@ int compare_icase(tlx::string_view a, const char* b)
 
     while (ai != a.end() && *b != 0)
     {
-        int ca = to_lower(*ai++);
-        int cb = to_lower(*b++);
+        int ca = static_cast<unsigned char>(to_lower(*ai++));
+        int cb = static_cast<unsigned char>(to_lower(*b++));
 
         if (ca == cb)
             continue;
@@ -88,8 +88,8 @@ int compare_icase(tlx::string_view a, tlx::string_view b)
 
     while (ai != a.end() && bi != b.end())
     {
-        int ca = to_lower(*ai++);
-        int cb = to_lower(*bi++);
+        int ca = static_cast<unsigned char>(to_lower(*ai++));
+        int cb = static_cast<unsigned char>(to_lower(*bi++));
 
         if (ca == cb)
             continue;
